@@ -11,16 +11,32 @@ from .ratfun import Rat, SAtom, satom
 _ZERO = Rat.const(0)
 
 
-def diff(r, var):
-    """d r / d var; atoms are differentiated through their arguments."""
+def diff(r, var, sgn=False):
+    """d r / d var; atoms are differentiated through their arguments.  With
+    ``sgn`` the derivative of |a| is a' * sgn(a) with an explicit atom
+    ('sgn', a) (to be resolved at the point of interest) instead of
+    a' * a / |a|."""
     r = r if isinstance(r, Rat) else Rat.const(r)
     tot = r.diff(var)
     for v in r.vars():
         if isinstance(v, SAtom):
-            da = d_atom(v, var)
+            da = d_atom(v, var, sgn)
             if not da.is_zero():
                 tot = tot + r.diff(v) * da
     return tot
+
+
+def deep_subs(r, mapping, rebuild):
+    """Substitute plain variables by ``mapping`` everywhere, also inside the
+    arguments of atoms; ``rebuild(kind, new_arg, atom)`` returns the Rat for
+    an atom whose argument changed."""
+    r = r if isinstance(r, Rat) else Rat.const(r)
+    sub = dict(mapping)
+    for v in r.vars():
+        if isinstance(v, SAtom) and len(v) > 1 and isinstance(v[1], Rat):
+            if any(_depends(v[1], k) for k in mapping):
+                sub[v] = rebuild(v[0], deep_subs(v[1], mapping, rebuild), v)
+    return r.subs(sub) if sub else r
 
 
 def _depends(r, var):
@@ -33,7 +49,7 @@ def _depends(r, var):
     return False
 
 
-def d_atom(v, var):
+def d_atom(v, var, sgn=False):
     k = v[0]
     arg = v[1] if len(v) > 1 else None
     if not isinstance(arg, Rat):
@@ -43,7 +59,7 @@ def d_atom(v, var):
         return _ZERO
     if not _depends(arg, var):
         return _ZERO
-    da = diff(arg, var)
+    da = diff(arg, var, sgn)
     me = Rat.var(v)
     if k == 'sqrt':
         return da / (2 * me)
@@ -53,6 +69,8 @@ def d_atom(v, var):
     if k == 'abs':
         if 'I' in arg.vars():
             raise Undecided('derivative of a complex modulus')
+        if sgn:
+            return da * Rat.var(satom('sgn', arg))
         return da * arg / me
     if k == 'sign':
         return _ZERO
